@@ -239,17 +239,28 @@ def c19_2(ctx: Ctx) -> RuleResult:
             if g.cls is c and g is not get and g.name.startswith("_") and not any(g is f_ for f_, _l in lookup_funcs):
                 lookup_funcs.append((g, lits_at(get, stmt_of(call_))))
     explicit_sites, disc_sites = [], []
+    from ..util import gated_values
+
+    seen_sites = set()
     for f_, outer in lookup_funcs:
         for r_ in nodes_in(f_, ast.Return):
             if r_.value is None:
                 continue
-            rv = X.at(f_, r_.value)
-            lits = lits_at(f_, r_) + outer
-            for a in _strip_alts(rv):
-                if a[0] == "call" and a[1][0] == "attr" and a[1][2] == "get" and any(b[0] == "sub" for b in _strip_alts(a[1][1])) and _term_is_subreg(a[1][1], reg):
-                    explicit_sites.append((f_, r_, a, lits))
-                elif a[0] == "iter" and a[1][0] == "call" and a[1][1][0] == "attr" and a[1][1][2] == "values" and _term_is_subreg(a[1][1][1], reg):
-                    disc_sites.append((f_, r_, a, lits))
+            base_lits = lits_at(f_, r_) + outer
+            # the alternatives of the returned value with the conditions under which each was chosen
+            for conds, leaf in gated_values(ctx, f_, r_.value):
+                extra = [(a_, p_) for a_, p_ in conds]
+                lits = base_lits + lits_at(f_, r_, extra)
+                for a in _strip_alts(leaf):
+                    key = (_norm(a), f_.qualname)
+                    if a[0] == "call" and a[1][0] == "attr" and a[1][2] == "get" and any(b[0] == "sub" for b in _strip_alts(a[1][1])) and _term_is_subreg(a[1][1], reg):
+                        if key not in seen_sites:
+                            seen_sites.add(key)
+                            explicit_sites.append((f_, r_, a, lits))
+                    elif a[0] == "iter" and a[1][0] == "call" and a[1][1][0] == "attr" and a[1][1][2] == "values" and _term_is_subreg(a[1][1][1], reg):
+                        if key not in seen_sites:
+                            seen_sites.add(key)
+                            disc_sites.append((f_, r_, a, lits))
     explicit_ok = len(explicit_sites) == 1
     if explicit_ok:
         f_, r_, rv0, lits = explicit_sites[0]
@@ -271,6 +282,22 @@ def c19_2(ctx: Ctx) -> RuleResult:
             if isinstance(cur, ast.For):
                 in_loop = True
             cur = parent(cur)
+        if not in_loop:
+            # the match is stored and the loop left at once (`found = plugin; break`, as an inlined helper's return)
+            for asg in nodes_in(f_, ast.Assign):
+                if any(_norm(a_) == rv for a_ in _strip_alts(X.at(f_, asg.value))):
+                    par_ = parent(asg)
+                    for fld in ("body", "orelse"):
+                        lst = getattr(par_, fld, None)
+                        if isinstance(lst, list) and any(x is asg for x in lst):
+                            i_ = next(i for i, x in enumerate(lst) if x is asg)
+                            rest_ = lst[i_ + 1:]
+                            if any(isinstance(x, ast.Break) for x in rest_) and all(isinstance(x, (ast.Assign, ast.Break)) for x in rest_[: [isinstance(x, ast.Break) for x in rest_].index(True) + 1]):
+                                anc = parent(asg)
+                                while anc is not None and anc is not f_.node:
+                                    if isinstance(anc, ast.For):
+                                        in_loop = True
+                                    anc = parent(anc)
         disc_ok = has_flag and has_sup and not unordered and in_loop
     # the two lookups exclude each other: one test (on the split result) separates them
     if explicit_ok and disc_ok:
